@@ -13,7 +13,7 @@ def vf_jobs(tier):
         witnesses=['link changed','position set from a granule position','packet processed','streaming handle'],models=ENV,tags=['C03','C07','C09'],
         functions=['_fetch_and_process_packet','_make_decode_ready','_decode_clear'],bounds='<=%d links, <=%d framing events per call; arbitrary V_vf state'%(nl,4),weight=3,mem_est=(3 if q else 10)))
     J.append(Job('F-halfrate','vf/f_halfrate.c',defs=['-DNL=3'],cuts={'vorbisfile.c':['ov_pcm_seek']},unwind=5,object_bits=12,
-        witnesses=['refused','accepted','re-seek'],models=ENV,tags=['C20','C03'],functions=['ov_halfrate','ov_halfrate_p'],bounds='<=3 links, any subset refusing, any prior state'))
+        witnesses=['refused','accepted','re-seek','refusal left the running decoder alone'],models=ENV,tags=['C20','C03'],functions=['ov_halfrate','ov_halfrate_p'],bounds='<=3 links, any subset refusing, any prior state'))
     J.append(Job('F-crosslap','vf/f_crosslap.c',cuts={'vorbisfile.c':['_ov_initset','_ov_initprime','_ov_getlap','_ov_splice']},unwind=5,object_bits=12,
         witnesses=['rejected','priming failed','spliced with differing half-rate flags'],models=ENV,tags=['C19','C03'],functions=['ov_crosslap','ov_info','ov_halfrate_p'],bounds='two single-link handles, short blocks 64..4096, channels 1..3'))
     for npg in ([2] if q else [2,3]):
@@ -21,7 +21,7 @@ def vf_jobs(tier):
             witnesses=['cross-link seek','middle page chosen' if npg>2 else 'cross-link seek','first-page special case'],models=ENV+['abstract page table (M-frame(c))'],tags=['C08','C07','C03','C09'],
             functions=['ov_pcm_seek_page','ov_pcm_total','_decode_clear'],bounds='2 links, %d pages in the target link, file < 64 KiB, <=10 page fetches'%npg,weight=4))
     J.append(Job('pcm-exact','vf/pcm_seek.c',defs=['-DNPK=%d'%(3 if q else 5),'-DENV_BUDGET=3'],cuts={'vorbisfile.c':['ov_pcm_seek_page','_get_next_page','_fetch_and_process_packet']},unwind=(3 if q else 5)+4,object_bits=12,
-        witnesses=['packets discarded in the second link','samples discarded up to the target','seek failed'],models=ENV+['contract of ov_pcm_seek_page (page-bisect)'],tags=['C08','C07','C03','C20'],
+        witnesses=['packets discarded in the second link','samples discarded up to the target','seek failed','recorded position already equals the target'],models=ENV+['contract of ov_pcm_seek_page (page-bisect)'],tags=['C08','C07','C03','C20'],
         functions=['ov_pcm_seek','_make_decode_ready'],bounds='2 links, <=%d queued packets without granule positions, <=3 further packets fetched, block sizes 64..8192 per link'%(3 if q else 5),weight=3))
     for kl in ([2] if q else [2]):   # 3 links: no verdict in 3600 s / 14 GB (measured)
         J.append(Job('chain-table-%d'%kl,'vf/chain_table.c',defs=['-DKL=%d'%kl,'-DFETCHES=%d'%(10 if q else 12)],cuts={'vorbisfile.c':['_seek_helper','_get_next_page','_get_prev_page_serial','_fetch_headers','_initial_pcmoffset','ov_raw_seek']},
